@@ -32,7 +32,8 @@ def load_contracts():
 
 
 def _verify_worker(args):
-    key, timeout_ms, feas_ms = args
+    key, timeout_ms, feas_ms = args[:3]
+    scale = args[3] if len(args) > 3 else 1
     os.environ.setdefault('PYTHONHASHSEED', '0')
     sys.path.insert(0, ROOT)
     sys.setrecursionlimit(10000)
@@ -42,13 +43,14 @@ def _verify_worker(args):
     c = contracts[key]
     t0 = time.time()
     try:
-        d = Driver(c, Budget(c.timeout or timeout_ms, feas_ms))
+        d = Driver(c, Budget((c.timeout or timeout_ms) * scale, feas_ms))
         r = d.run()
         out = r.asdict()
         for o, od in zip(r.obligations, out['obligations']):
             if getattr(o, 'smt', None):
                 od['smt'] = o.smt[:30000]
             od['path'] = getattr(o, 'path', '')
+            od['part'] = getattr(o, 'part', 0)
         return out
     except Exception as e:  # engine crash: never a violation
         import traceback
@@ -171,6 +173,23 @@ def check_property(prop, tier, a):
                 results = list(pool.map(_verify_worker, [(c.key, timeout_ms, feas_ms) for c in mine]))
         native_fn = fut_fn.result()
         native_h = fut_h.result() if fut_h else None
+    # second attempt, on a quiet machine and with twice the budget, for every contract that came back with an `unknown`: solver
+    # time limits are wall-clock, and the first round shares the cores with the native harness.  The better verdict per
+    # obligation and path counts (an `unknown` that becomes `proved`); `failed` verdicts are never overridden.
+    retry = [r['key'] for r in results if any(o['verdict'] == 'unknown' for o in r.get('obligations', []))]
+    if retry:
+        with cf.ProcessPoolExecutor(max_workers=min(4, len(retry)), mp_context=ctx, max_tasks_per_child=1) as pool:
+            second = {r['key']: r for r in pool.map(_verify_worker, [(k, timeout_ms, feas_ms, 2) for k in retry])}
+        for r in results:
+            r2 = second.get(r['key'])
+            if not r2 or r2.get('crash'):
+                continue
+            kf = lambda o: (o['oid'], o.get('path', ''), o.get('part', 0), o.get('lineno'))
+            better = {kf(o): o for o in r2['obligations'] if o['verdict'] == 'proved'}
+            for i, o in enumerate(r['obligations']):
+                if o['verdict'] == 'unknown' and kf(o) in better:
+                    r['obligations'][i] = dict(better[kf(o)], detail=(better[kf(o)].get('detail') or '') + ' (second attempt, 2x budget)')
+            r['solver_time'] = r.get('solver_time', 0) + r2.get('solver_time', 0)
 
     checker_errors = []
     for r in results:
